@@ -31,6 +31,7 @@ EmbT == St(<<Fld("ren", "A", "A", [k |-> "i8"]), Fld("ren", "B", "b", [k |-> "st
 
 Types ==
   CASE Fam = "leaf" -> Leaf
+    [] Fam = "mapkeys" -> {[k |-> "map", key |-> kk, e |-> t] : kk \in AllKeyKinds, t \in {[k |-> "int"], [k |-> "str"]}}   \* every key parser, always in the quick tier
     [] Fam = "wrap1" -> WrapK(Leaf, AllKeyKinds)        \* every key kind: each has its own key parser
     [] Fam = "wrap2" -> Wrap(Wrap(LeafR))
     [] Fam = "st1" -> {St(<<f>>) : f \in UNION {TagForms("A", t) : t \in Leaf \cup Wrap(LeafR)}}
